@@ -372,3 +372,103 @@ func init() {
 			return obs
 		}})
 }
+
+func init() {
+	register(&Rule{ID: "MACRO.expand-lookup", Floor: 1,
+		Doc: "macroexpand and macroexpand-1 resolve the head of the form exactly as the evaluator does when it evaluates that form: the macro value handed to the expansion step is the result of LEnv.Get on the head symbol (innermost lexical binding, then the package), directly or through a helper all of whose returns are that — never a global-only lookup — so (eval (macroexpand form)) and (eval form) agree under macrolet, flet and let bindings of the head",
+		Run: func(c *Ctx) []Obligation {
+			exp1 := c.LookupPkgFunc("lisp.macroExpand1")
+			get := c.LookupMethod("lisp.LEnv.Get")
+			if exp1 == nil || get == nil {
+				return []Obligation{anchorMissing("MACRO.expand-lookup", "lisp.macroExpand1 / LEnv.Get")}
+			}
+			var fromGet func(u FuncUnit, e ast.Expr, depth int) (bool, string)
+			fromGet = func(u FuncUnit, e ast.Expr, depth int) (bool, string) {
+				info := u.Pkg.TypesInfo
+				e = ast.Unparen(e)
+				if ce, ok := e.(*ast.CallExpr); ok {
+					fn := originOf(Callee(info, ce))
+					if fn == get {
+						return true, ""
+					}
+					if fn != nil && fn.Pkg() == u.Obj.Pkg() && depth > 0 {
+						if fd := c.declOf[fn]; fd != nil && fd.Body != nil {
+							hu := FuncUnit{fn, fd, c.pkgOf[fd]}
+							any := false
+							for _, rs := range returnsOf(fd.Body) {
+								if len(rs.Results) == 0 {
+									continue
+								}
+								r := rs.Results[0]
+								if tv, ok := hu.Pkg.TypesInfo.Types[r]; ok && tv.IsNil() {
+									continue
+								}
+								any = true
+								if ok, why := fromGet(hu, r, depth-1); !ok {
+									return false, fn.Name() + ": " + why
+								}
+							}
+							if any {
+								return true, ""
+							}
+						}
+					}
+					if fn != nil {
+						return false, "resolved with " + fn.Name()
+					}
+					return false, "resolved with `" + types.ExprString(ce.Fun) + "`"
+				}
+				if o := identObj(info, e); o != nil {
+					var defs []ast.Expr
+					ast.Inspect(u.Decl.Body, func(n ast.Node) bool {
+						if as, ok := n.(*ast.AssignStmt); ok {
+							if len(as.Lhs) == len(as.Rhs) {
+								for i, l := range as.Lhs {
+									if identObj(info, l) == o {
+										defs = append(defs, as.Rhs[i])
+									}
+								}
+							} else if len(as.Rhs) == 1 {
+								for i, l := range as.Lhs {
+									if identObj(info, l) == o && i == 0 {
+										defs = append(defs, as.Rhs[0])
+									}
+								}
+							}
+						}
+						return true
+					})
+					if len(defs) == 0 {
+						return false, "`" + o.Name() + "` has no visible definition"
+					}
+					for _, d := range defs {
+						if ok, why := fromGet(u, d, depth); !ok {
+							return false, why
+						}
+					}
+					return true, ""
+				}
+				return false, "`" + types.ExprString(e) + "`"
+			}
+			var obs []Obligation
+			sites, _ := c.CallsTo(func(p string) bool { return rel(p) == "lisp" }, exp1)
+			ord := map[string]*ordinal{}
+			for _, s := range sites {
+				if s.Call == nil || len(s.Call.Args) < 2 {
+					continue
+				}
+				o := ord[s.Unit.Name()]
+				if o == nil {
+					o = &ordinal{}
+					ord[s.Unit.Name()] = o
+				}
+				construct := o.next("macro value handed to macroExpand1")
+				if ok, why := fromGet(s.Unit, s.Call.Args[1], 2); ok {
+					obs = append(obs, mkOb(c, "MACRO.expand-lookup", s.Unit, construct, s.Call, Proved, "the result of LEnv.Get on the head symbol", true))
+				} else {
+					obs = append(obs, mkOb(c, "MACRO.expand-lookup", s.Unit, construct, s.Call, Violated, "the head of the form is not resolved with LEnv.Get ("+why+"): a macrolet/flet/let binding of the head is ignored, so macroexpand expands what eval would not (or the wrong macro)", true))
+				}
+			}
+			return obs
+		}})
+}
